@@ -38,6 +38,9 @@ type c18Graph struct {
 
 var c18Names = []string{"a", "b", "c", "d", "e", "f", "g", "h"}
 
+// c18Odd are spellings used instead of a..h in some graphs: ids are compared as text, whatever they contain.
+var c18Odd = map[string]string{"a": "build%20arm", "b": "b-1", "c": "_c", "d": "d%sx", "e": "e_e", "f": "f%d", "g": "g.g", "h": "100%"}
+
 func c18Case(c *Chooser, s string) string {
 	if c.Weighted("world.case", 1, 5) {
 		return strings.ToUpper(s)
@@ -68,8 +71,15 @@ func genC18(c *Chooser) *c18Graph {
 	for i, v := range order {
 		posOf[v] = i
 	}
+	names := c18Names
+	if c.Weighted("world.oddnames", 1, 10) {
+		names = make([]string, len(c18Names))
+		for i, n := range c18Names {
+			names[i] = c18Odd[n]
+		}
+	}
 	for _, v := range order {
-		job := c18Job{ID: c18Case(c, c18Names[v])}
+		job := c18Job{ID: c18Case(c, names[v])}
 		for w := 0; w < n; w++ {
 			var p int // probability of edge v->w in 1/12
 			switch shape {
@@ -108,9 +118,9 @@ func genC18(c *Chooser) *c18Graph {
 				p = 1 // self loops rarer
 			}
 			if p > 0 && c.Weighted("world.edge", p, 12) {
-				job.Needs = append(job.Needs, c18Case(c, c18Names[w]))
+				job.Needs = append(job.Needs, c18Case(c, names[w]))
 				if c.Weighted("world.dupedge", 1, 16) {
-					job.Needs = append(job.Needs, c18Case(c, c18Names[w]))
+					job.Needs = append(job.Needs, c18Case(c, names[w]))
 				}
 			}
 		}
